@@ -15,6 +15,8 @@ import (
 	"github.com/pingcap/advanced-statefulset/client/apis/apps/v1/helper"
 	pcfake "github.com/pingcap/advanced-statefulset/client/client/clientset/versioned/fake"
 	appsv1 "k8s.io/api/apps/v1"
+	corev1 "k8s.io/api/core/v1"
+	apiequality "k8s.io/apimachinery/pkg/api/equality"
 	metav1 "k8s.io/apimachinery/pkg/apis/meta/v1"
 	"k8s.io/apimachinery/pkg/watch"
 	kubefake "k8s.io/client-go/kubernetes/fake"
@@ -58,7 +60,8 @@ func relayGoroutines() (n int, states []string) {
 	buf := make([]byte, 1<<20)
 	buf = buf[:runtime.Stack(buf, true)]
 	for _, g := range strings.Split(string(buf), "\n\n") {
-		if strings.Contains(g, "hijackWatch).receive") {
+		// any goroutine still executing code of the hijack helper package (the relay, or anything else it started)
+		if strings.Contains(g, "hijackWatch).receive") || (strings.Contains(g, "apis/apps/v1/helper.") && !strings.Contains(g, "cmd/vcheck")) {
 			n++
 			first := strings.SplitN(g, "\n", 2)[0]
 			states = append(states, first)
@@ -89,6 +92,13 @@ func makeEvent(i int, t watch.EventType) watch.Event {
 		r := int32(i)
 		s.Spec.Replicas = &r
 		s.Spec.ServiceName = "svc"
+		// consecutive events differ in which optional fields are present at all
+		if i%2 == 0 {
+			s.Annotations = map[string]string{helper.DeleteSlotsAnn: fmt.Sprintf("[%d]", i), helper.PausedReconcileAnn: "true"}
+			s.Labels = map[string]string{"generation": fmt.Sprint(i)}
+			s.Spec.VolumeClaimTemplates = []corev1.PersistentVolumeClaim{{ObjectMeta: metav1.ObjectMeta{Name: "data"}}}
+			s.Status.CurrentRevision = fmt.Sprintf("rev-%d", i)
+		}
 	}
 	return watch.Event{Type: t, Object: s}
 }
@@ -103,7 +113,14 @@ func runC20Case(c c20Case) (viol [][2]string, inconclusive string) {
 	pc := pcfake.NewSimpleClientset()
 	pc.PrependWatchReactor("statefulsets", func(a ktesting.Action) (bool, watch.Interface, error) { return true, src, nil })
 	hc := helper.NewHijackClient(kubefake.NewSimpleClientset(), pc)
-	w, err := hc.AppsV1().StatefulSets("ns").Watch(context.TODO(), metav1.ListOptions{})
+	ctx := context.TODO()
+	cancel := func() {}
+	if c.Index%2 == 1 {
+		// a long-lived cancellable context, as callers with request scopes use; it outlives the watch
+		ctx, cancel = context.WithCancel(context.Background())
+	}
+	defer cancel()
+	w, err := hc.AppsV1().StatefulSets("ns").Watch(ctx, metav1.ListOptions{})
 	if err != nil {
 		return nil, "Watch failed: " + err.Error()
 	}
@@ -247,6 +264,10 @@ func runC20Case(c c20Case) (viol [][2]string, inconclusive string) {
 		if b.Name != ws.Name || b.ResourceVersion != ws.ResourceVersion || b.APIVersion != "apps/v1" ||
 			(ws.Spec.Replicas != nil && (b.Spec.Replicas == nil || *b.Spec.Replicas != *ws.Spec.Replicas)) {
 			bad("payload-content", "event %d payload %s/rv%s differs from sent %s/rv%s", i, b.Name, b.ResourceVersion, ws.Name, ws.ResourceVersion)
+		} else if wantObj, err := helper.ToBuiltinStatefulSet(ws); err == nil && !apiequality.Semantic.DeepEqual(wantObj, b) {
+			// the equivalent built-in object of *this* event, nothing carried over from earlier ones
+			bad("payload-not-equivalent", "event %d (%s): relayed object is not the built-in equivalent of the sent one: annotations %v vs %v, labels %v vs %v, claims %d vs %d, currentRevision %q vs %q",
+				i, want.Type, b.Annotations, wantObj.Annotations, b.Labels, wantObj.Labels, len(b.Spec.VolumeClaimTemplates), len(wantObj.Spec.VolumeClaimTemplates), b.Status.CurrentRevision, wantObj.Status.CurrentRevision)
 		}
 	}
 	if !stopped && len(got) != len(sent) && len(viol) == 0 {
